@@ -90,6 +90,47 @@ func checkC05(r *core.Run, p *core.Program) {
 	r.Rule("C05.array-index", "every typed-array iterator reads element i with v.Index(i) where i is the variable its loop compares with the element count, passes the element count v.Len() and a data slice of count*width bytes to OnArray with the array type whose element size is that width, and stores byte k of each element as element >> 8k at offset i*width+k (bit arrays: bit (i mod 8) of byte i/8).")
 	r.Rule("C05.record-arity", "the record iterator and its record-type iterator decide which fields to emit with the same predicate on the same value-independent argument, so a record always carries as many values as its type declares.")
 	r.Rule("C05.document", "the root iterator emits OnBeginDocument and OnVersion first, emits the record types before the object, and every path ends with OnEndDocument.")
+	r.Rule("C05.index-path", "the index path by which the struct iterator reaches a field is a fresh copy per field (no append onto the recursion's path parameter): otherwise fields of a deeply embedded struct are read through another field's path and the emitted value is not the field's value.")
+	checkIndexPath(r, p, "C05.index-path")
+	r.Rule("C05.marker-ids", "no method of package iterator with a value receiver stores to its receiver (the marker-name counter of the root iterator would not advance: every shared object then gets the same marker ID and the validator rejects the stream).")
+	{
+		nt := 0
+		for _, ff := range funcsOf(p.Pkg("iterator")) {
+			sig := ff.Obj.Type().(*types.Signature)
+			if sig.Recv() == nil {
+				continue
+			}
+			if _, isPtr := sig.Recv().Type().(*types.Pointer); isPtr {
+				continue
+			}
+			if _, isStruct := sig.Recv().Type().Underlying().(*types.Struct); !isStruct {
+				continue
+			}
+			nt++
+			recv := sig.Recv()
+			var bad token.Pos
+			ast.Inspect(ff.Decl.Body, func(n ast.Node) bool {
+				var lhs []ast.Expr
+				switch s := n.(type) {
+				case *ast.AssignStmt:
+					lhs = s.Lhs
+				case *ast.IncDecStmt:
+					lhs = []ast.Expr{s.X}
+				}
+				for _, l := range lhs {
+					if sel, ok := stripParens(l).(*ast.SelectorExpr); ok && objOf(p.Pkg("iterator").TypesInfo, sel.X) == recv {
+						bad = l.Pos()
+					}
+				}
+				return true
+			})
+			r.Check("C05.marker-ids", ff.Name()+"|value receiver does not store to itself", ff.Decl.Pos(), bad == token.NoPos, "this method has a value receiver and stores to a field of it: the update is lost when the method returns")
+		}
+		r.Count("C05.marker-ids value-receiver methods of struct types in package iterator", nt)
+		if nt == 0 {
+			r.Pass("C05.marker-ids", "iterator|no value-receiver methods on struct types", token.NoPos, "")
+		}
+	}
 	r.Rule("C05.struct-fields", "the struct iterator emits, for every field it keeps, the field name followed by exactly one value, inside one map.")
 	r.NotDecide("that the emitted contents equal the value beyond index coverage; validator acceptance in general")
 
@@ -298,6 +339,44 @@ func checkC05(r *core.Run, p *core.Program) {
 				return true
 			})
 			r.Check("C05.array-index", f.Name()+"|bit packing", f.Decl.Pos(), okShift, "bit i of each byte must be set with 1 << i (low bit first)")
+			// the byte accumulator starts from zero for every output byte: it is (re)initialised in the block that stores it
+			var accObj types.Object
+			ast.Inspect(f.Decl.Body, func(n ast.Node) bool {
+				if as, ok := n.(*ast.AssignStmt); ok && as.Tok == token.OR_ASSIGN && len(as.Lhs) == 1 {
+					accObj = objOf(info, as.Lhs[0])
+				}
+				return true
+			})
+			fresh := false
+			if accObj != nil {
+				ast.Inspect(f.Decl.Body, func(n ast.Node) bool {
+					blk, ok := n.(*ast.BlockStmt)
+					if !ok {
+						return true
+					}
+					storeIdx, initIdx := -1, -1
+					for i, st := range blk.List {
+						as, ok := st.(*ast.AssignStmt)
+						if !ok || len(as.Lhs) != 1 || len(as.Rhs) != 1 {
+							continue
+						}
+						if _, isIx := stripParens(as.Lhs[0]).(*ast.IndexExpr); isIx && objOf(info, as.Rhs[0]) == accObj {
+							storeIdx = i
+						}
+						if objOf(info, as.Lhs[0]) == accObj && (as.Tok == token.DEFINE || as.Tok == token.ASSIGN) {
+							if c, ok := constInt(info, stripConv(info, as.Rhs[0])); ok && c == 0 {
+								initIdx = i
+							}
+						}
+					}
+					if storeIdx >= 0 && initIdx >= 0 && initIdx < storeIdx {
+						fresh = true
+					}
+					return true
+				})
+			}
+			r.Check("C05.array-index", f.Name()+"|bit accumulator starts at zero for every byte", f.Decl.Pos(), fresh,
+				"the byte that collects 8 elements is not reset to 0 in the block that stores it: bits set for earlier elements leak into the following bytes (slices longer than 8 elements carry wrong elements)")
 		}
 	}
 	r.Floor("C05.array-index", "typed array iterators", nArr, 12)
